@@ -196,7 +196,8 @@ class Session:
         self.ctr += 1
         tag = "full@%d" % self.ctr
         self.observe(oid, epoch, "full", nm=tag)
-        path = os.path.join(self.tmp, "m%d.pkl" % self.ctr)
+        # the file name is the caller's: with the usual extension, with none, with another one
+        path = os.path.join(self.tmp, ("m%d.pkl", "model%d", "m%d.bin")[self.ctr % 3] % self.ctr)
         self.call("save", o["m"].save, path)
         self.observe(oid, epoch, "full", nm=tag)
         new = self.new_model(o["kind"], o["g"], **fresh_cfg)
